@@ -285,7 +285,7 @@ func Run(plan *Plan) error {
 		}
 	}
 	rec.Settle(20*time.Millisecond, 3*time.Second)
-	// goroutines that keep running although nothing is going on any more (D19)
+	// goroutines that keep running although nothing is going on any more (D26)
 	before := map[string]int{}
 	for _, k := range []string{"consumer.recv.err", "consumer.recv", "publishTopic.recv"} {
 		before[k] = rec.Count(k)
